@@ -83,6 +83,10 @@ fn usize_value(body: Rc<SExp>) -> Result<usize, CompileErr> {
 /// needed.  These are held in a collection and looked up.  To be maximally
 /// conservative with typing and lifetime, we hold these via Rc<dyn ...>.
 pub trait ExtensionFunction {
+    /// How many arguments try_eval reads; None when it takes any number.
+    fn want_args(&self) -> Option<usize> {
+        Some(1)
+    }
     fn try_eval(&self, loc: &Srcloc, args: &[Rc<SExp>]) -> Result<Rc<SExp>, CompileErr>;
 }
 
@@ -182,6 +186,10 @@ impl StringAppend {
 }
 
 impl ExtensionFunction for StringAppend {
+    fn want_args(&self) -> Option<usize> {
+        None
+    }
+
     fn try_eval(&self, loc: &Srcloc, args: &[Rc<SExp>]) -> Result<Rc<SExp>, CompileErr> {
         let mut out_vec = Vec::new();
         let mut out_loc = None;
@@ -272,6 +280,10 @@ impl Substring {
 }
 
 impl ExtensionFunction for Substring {
+    fn want_args(&self) -> Option<usize> {
+        Some(3)
+    }
+
     fn try_eval(&self, _loc: &Srcloc, args: &[Rc<SExp>]) -> Result<Rc<SExp>, CompileErr> {
         let start_element = usize_value(args[1].clone())?;
         let end_element = usize_value(args[2].clone())?;
@@ -350,6 +362,19 @@ impl PrimOverride for PreprocessorExtension {
             };
 
             if let Some(extension) = self.extfuns.get(head_atom) {
+                if let Some(want) = extension.want_args() {
+                    if have_args.len() != want {
+                        return Err(RunFailure::RunErr(
+                            hl.clone(),
+                            format!(
+                                "{} takes {} argument(s), given {}",
+                                decode_string(head_atom),
+                                want,
+                                have_args.len()
+                            ),
+                        ));
+                    }
+                }
                 let res = extension.try_eval(hl, &have_args)?;
                 return Ok(Some(res));
             }
